@@ -136,6 +136,8 @@ type gatedStore struct {
 	owner           map[string]int // mapping id -> caller that wrote (or tried to write) its main record
 	// listing callers: the call spawns an asynchronous clean-up goroutine whose storage calls are further actions of
 	// the same caller; the caller counts as returned only when the clean-ups it spawned are through
+	rfaultAt int // 1-based index among this caller's reads of mapping records that fails (0: none)
+	mreads   int
 	mainG    uint64        // goroutine of the call itself (0: not a listing caller)
 	found    int           // code records the call itself read
 	purgeEnd chan struct{} // one signal per finished clean-up
@@ -180,7 +182,14 @@ func (s *gatedStore) forwardFault() bool {
 func (s *gatedStore) Get(key string) (any, error) {
 	switch {
 	case strings.HasPrefix(key, constants.KeyPrefixPortMapping+":"):
-		return s.raw.Get(key) // merged into the preceding action
+		// merged into the preceding action.  Optional READ fault (beyond the property's stated "single storage-write
+		// failures": predicate-only cells, not replayed on the model): the k-th read of a mapping record by this caller fails
+		s.mreads++
+		if s.rfaultAt > 0 && s.mreads == s.rfaultAt {
+			s.faulted = true
+			return nil, errInjected
+		}
+		return s.raw.Get(key)
 	case strings.HasPrefix(key, constants.KeyPrefixRuntimeConnectionCodeByCode):
 		s.park(opGetCode, key)
 	case strings.HasPrefix(key, constants.KeyPrefixRuntimeConnectionCodeByID):
@@ -352,6 +361,7 @@ type thrIn struct {
 	LAddr  int    `json:"laddr"` // index into listenAddrs; -1 = malformed address
 	Fault  int    `json:"fault"` // forward-write index that fails, -1 none
 	NoCode bool   `json:"nocode"`
+	RFault int    `json:"rfault1"` // k > 0: the k-th read of a mapping record by this caller fails (predicate-only cells)
 }
 type caseIn struct {
 	QMax    int        `json:"qmax"`
@@ -752,7 +762,7 @@ func runSched(c caseIn) *caseOut {
 		if cluster {
 			nodeStore = newNode(ctx, base) // this caller's node
 		}
-		st := &gatedStore{Storage: nodeStore, raw: nodeStore, idx: i, g: g, faultAt: t.Fault, mu: &mu, owner: owner, purgeEnd: make(chan struct{}, 16),
+		st := &gatedStore{Storage: nodeStore, raw: nodeStore, idx: i, g: g, faultAt: t.Fault, rfaultAt: t.RFault, mu: &mu, owner: owner, purgeEnd: make(chan struct{}, 16),
 			listenKey: fmt.Sprintf("%s:%s", constants.KeyPrefixClientMappings, random.Int64ToString(t.Listen))}
 		stores[i] = st
 		var sk *stack
